@@ -17,6 +17,7 @@ import tempfile
 from .. import impl
 from ..common import BASE_TRUST, clist, cnat, cstr
 from ..translators import regex as regex_tr
+from .. import marked
 from . import c05
 
 IMPORTS = ("From FV Require Import Base.Str Base.Regex Gen.GenRegex C06.Model.\n"
@@ -280,6 +281,7 @@ def run(ctx):
     ctx.proof_obligations(search=lambda: search_failing(ctx))
     q = ctx.quick()
     check_scan(ctx, 1500 if q else 30000)
+    marked.check_references(ctx)
     run_worlds(ctx, 40 if q else 1200)
 
 
